@@ -97,7 +97,7 @@ Candidates ==
     \cup Unary("Repeat", [trss |-> <<TRS1, TRS2>>])
     \cup Unary("Normalize", [id |-> 1]) \cup Unary("Normalize", [id |-> 2])
     \cup Unary("FlatNormals", Z) \cup Unary("SmoothNormals", Z)
-    \cup Unary("Laplacian", [id |-> 1, iters |-> 1]) \cup Unary("Laplacian", [id |-> 1, iters |-> 3])
+    \cup Unary("Laplacian", [id |-> 1, iters |-> 1, lam2 |-> 2]) \cup Unary("Laplacian", [id |-> 1, iters |-> 3, lam2 |-> 1])
     \cup NoRes("Export", [fmt |-> "ply-le"]) \cup NoRes("Export", [fmt |-> "obj"])
     \cup NoRes("Export", [fmt |-> "glb"]) \cup NoRes("Export", [fmt |-> "stl"])
     \cup NoRes("Scan", Z)
